@@ -46,9 +46,10 @@ PROPS = {
         'assumptions': [],
     },
     'C02': {
-        'units': [handlers.jobs, fragments.jobs],
+        'units': [handlers.jobs, fragments.jobs, specificity.jobs, best.jobs, best_proof.jobs],
         'level': 'proof',
-        'technique': T_SHAPES + ' for not_implemented_handler / ambiguous_handler / get_tip / collect_tip; contract on the deprecated call-error forwarder; bounded cell step',
+        'technique': T_SHAPES + ' for not_implemented_handler / ambiguous_handler / get_tip / collect_tip; contract on the deprecated call-error forwarder; '
+                     'is_more_specific / best() proofs decide when a call is unresolvable; bounded cell step',
         'level_text': 'For every signature shape (length <= 4, thorough 5, plus 17- and 18-parameter signatures for the max_types clamp) both handlers are proved to '
                       'call the policy\'s error handler exactly once with the right status, arity = number of virtual parameters and the dynamic type ids of exactly the '
                       'virtual arguments in order, and never to return (abort follows). The deprecated forwarder passes the same data to call_error. The cell step puts '
